@@ -50,7 +50,7 @@ def targeted(sch, r):
 
 
 def run(ctx):
-    b = lib.standard_build(ctx, theorems=False)   # TEMP: proofs under repair after the action-hierarchy model change
+    b = lib.standard_build(ctx)
     if not lib.require_builds(ctx, b):
         return
     r = ctx.rng
